@@ -11,16 +11,33 @@ open Idpy Idpy.Jar
     parameters are the object's (inner overrides outer) -/
 theorem by_value_sound (p : Policy) (client : Str) (outer : Params) (o : RO) (ps : Params)
     (h : byValue p client outer (some o) = .effective ps) :
-    o.verifies = true ∧ allowedAlg p o.alg = true ∧ o.clientId = some client ∧ ps = o.params := by
+    o.verifies = true ∧ allowedAlg p o.alg = true ∧ o.clientId = some client ∧ ps = o.params ∧
+    (o.iss = some client ∨ (o.iss = none ∧ o.alg = "none")) := by
   unfold byValue at h
   simp only at h
   split at h; · simp at h
   split at h; · simp at h
   split at h; · simp at h
   split at h; · simp at h
-  rename_i h1 h2 h3 h4
+  split at h; · simp at h
+  split at h; · simp at h
+  rename_i h1 h2 hi1 hi2 h3 h4
   simp only [Res.effective.injEq] at h
-  refine ⟨by simpa using h1, by simpa using h2, ?_, h.symm⟩
+  have hiss : o.iss = some client ∨ (o.iss = none ∧ o.alg = "none") := by
+    cases hc : o.iss with
+    | none =>
+      right; refine ⟨rfl, ?_⟩
+      cases hd : decide (o.alg = "none") with
+      | true => simpa using hd
+      | false => exfalso; apply hi2; rw [hc]; exact ⟨rfl, by simpa using hd⟩
+    | some c =>
+      left
+      cases hd : decide (c = client) with
+      | true => have : c = client := by simpa using hd
+                rw [this]
+      | false => exfalso; apply hi1; rw [hc]; have hne : c ≠ client := by simpa using hd
+                 simp [hne]
+  refine ⟨by simpa using h1, by simpa using h2, ?_, h.symm, hiss⟩
   cases hc : o.clientId with
   | none => simp [hc] at h4
   | some c =>
@@ -46,6 +63,17 @@ theorem unsigned_refused_when_alg_registered (p : Policy) (client : Str) (outer 
 /-- an object naming a different client is refused -/
 theorem other_client_refused (p : Policy) (client other : Str) (outer : Params) (o : RO)
     (hc : o.clientId = some other) (hne : other ≠ client) : byValue p client outer (some o) = .refused := by
+  unfold byValue
+  simp only
+  split; · rfl
+  split; · rfl
+  split; · rfl
+  split; · rfl
+  simp [hc, hne]
+
+/-- an object issued by (hence verified with the keys of) another client is refused -/
+theorem other_issuer_refused (p : Policy) (client other : Str) (outer : Params) (o : RO)
+    (hc : o.iss = some other) (hne : other ≠ client) : byValue p client outer (some o) = .refused := by
   unfold byValue
   simp only
   split; · rfl
